@@ -34,7 +34,7 @@ ASSUMPTIONS = [
 PROBES = ["rules_total", "cat_accessible", "cat_tuned", "cat_failed", "all_three_in_one_run", "tuned_via_variable", "tuned_literal",
           "nested_depth_3", "nested_rule_tuned", "premium_runs", "default_bg_runs", "shared_var_sheet", "root_direct_color",
           "fallback_used", "important_present", "prop_case_present", "alpha_text_tuned", "api_calls", "dir_invocation",
-          "mode0", "mode1", "mode2", "report_present"]
+          "mode0", "mode1", "mode2", "report_present", "subprocess_crosscheck"]
 
 C08_FEATURES = tuple(f for f in gen.ALL_FEATURES if f not in gen.C09_ONLY)
 
@@ -56,7 +56,7 @@ def generate(rseed, tier, idx):
     ast = gen.gen_sheet(g, feats, settings, max_rules=8)
     env = {"cwd": e.choice(("cwd", "cwd", "tree")), "tty": e.random() < 0.3, "argform": e.choice(("abs", "abs", "rel")),
            "inv": e.choice(("file", "file", "dir")), "name": e.choice(("a.css", "style.css", "my style.css", "thème.css"))}
-    return {"prop": ID, "ast": ast, "feats": feats, "settings": settings, "env": env}
+    return {"prop": ID, "ast": ast, "feats": feats, "settings": settings, "env": env, "subproc": idx % 16 == 3}
 
 
 # ---------------------------------------------------------------------------
@@ -326,6 +326,12 @@ def execute(trace):
             elif ratio < target_ratio and A_ + T_ + F_ == len(crules):
                 V("accessible-fails-target", rf, selector=ri.selector, written_text=w_text, written_bg=w_bg, ratio=ratio, target=target_ratio)
 
+        # 8. fidelity of the simulation itself: the real entry point in a real subprocess (pipes, real open, OS
+        #    traversal order) must produce the same bytes and the same summary as the in-process run behind seams
+        if trace.get("subproc"):
+            bump("subprocess_crosscheck")
+            _subprocess_crosscheck(root, name, text, target, settings, env, res, out_ent, rep_ent)
+
         # 7. report presence
         if T_ > 0 and (rep_ent is None or summ["report"] is None):
             V("report-presence", sheet_feats, T=T_, report_file=rep_ent is not None, report_line=summ["report"])
@@ -334,6 +340,41 @@ def execute(trace):
     finally:
         base.rm_tree(root)
     return {"violations": vio, "digest": base.digest(events), "nontrivial": nontrivial, "stats": stats, "steps": len(res["io"]), "skipped": skipped}
+
+
+def _subprocess_crosscheck(root, name, text, target, settings, env, res, out_ent, rep_ent):
+    import subprocess
+    import sys
+
+    r2 = base.new_sandbox("c08sub")
+    try:
+        for d in ("tree", "cwd", "home", "tmp"):
+            os.makedirs(os.path.join(r2, d), exist_ok=True)
+        with open(os.path.join(r2, "tree", name), "wb") as fh:
+            fh.write(text.encode("utf-8"))
+        cwd = os.path.join(r2, env["cwd"])
+        tabs = os.path.join(r2, target)
+        arg = os.path.relpath(tabs, cwd) if env["argform"] == "rel" else tabs
+        envp = dict(os.environ, HOME=os.path.join(r2, "home"), TMPDIR=os.path.join(r2, "tmp"), COLUMNS="80", LINES="24",
+                    PYTHONIOENCODING="utf-8", LC_ALL="C.UTF-8")
+        for v in ("NO_COLOR", "FORCE_COLOR"):
+            envp.pop(v, None)
+        p = subprocess.run([sys.executable, "-m", "cm_colors.cli.main"] + cli_run.cli_args(arg, settings), cwd=cwd, env=envp,
+                           capture_output=True, timeout=200)
+        snap = seams.snapshot(r2)
+        out2 = cli_run.strip_ansi(p.stdout.decode("utf-8", "replace")).replace(os.path.realpath(r2), "<SBX>")
+        out1 = cli_run.strip_ansi(res["out"])
+        same = (p.returncode == (res["exit"] if isinstance(res["exit"], int) else 1)
+                and out1 == out2
+                and snap.get("tree/" + name[:-4] + "_cm.css") == out_ent
+                and snap.get(os.path.normpath(os.path.join(env["cwd"], "cm_colors_report.html"))) == rep_ent)
+        if not same:
+            raise base.HarnessError("in-process simulation and real subprocess disagree: exit %r vs %r; stdout equal %r; output equal %r; report equal %r; stderr %s"
+                                    % (res["exit"], p.returncode, out1 == out2, snap.get("tree/" + name[:-4] + "_cm.css") == out_ent,
+                                       snap.get(os.path.normpath(os.path.join(env["cwd"], "cm_colors_report.html"))) == rep_ent,
+                                       p.stderr.decode("utf-8", "replace")[-300:]))
+    finally:
+        base.rm_tree(r2)
 
 
 def _is_alpha(ri):
